@@ -9,20 +9,20 @@ def ob(id, entry, mode, cases=None, expect=None, bounds=None, **kw):
     d.update(kw); return d
 OBLIGATIONS = [
     ob('C04.poly3', 'h_c04_poly3', 'real', [(1,), (2,)], ['polygon test equals the closed winding-number definition (triangle)', 'end'], 'triangles, lattice [-2,2]^2 (quick) / [-5,5]^2 (thorough)',
-       cases_thorough=[(2,), (3,), (5,)], native=False, time_cap=1500, slicing=False),
+       cases_thorough=[(2,), (3,), (5,)], native=True, time_cap=1500, slicing=False),
     ob('C04.poly4', 'h_c04_poly4', 'real', [(1,)], tier='thorough', expect=['polygon test equals the closed winding-number definition (quadrilateral)', 'end'], bounds='simple quadrilaterals, lattice [-1,1]^2 (quick) / [-2,2]^2 (thorough)',
-       cases_thorough=[(1,), (2,)], native=False, time_cap=2400, slicing=False),
-    ob('C04.edge', 'h_c04_edge', 'real', [(3, 2), (4, 1)], ['a point on an edge is inside', 'end'], 'N<=4 vertices (quick) / N<=5 (thorough), lattice [-2,2]^2', cases_thorough=[(3, 3), (4, 2), (5, 1)], native=False, slicing=False),
+       cases_thorough=[(1,), (2,)], native=True, time_cap=2400, slicing=False),
+    ob('C04.edge', 'h_c04_edge', 'real', [(3, 2), (4, 1)], ['a point on an edge is inside', 'end'], 'N<=4 vertices (quick) / N<=5 (thorough), lattice [-2,2]^2', cases_thorough=[(3, 3), (4, 2), (5, 1)], native=True, slicing=False),
     ob('C04.alias', 'h_c04_alias', 'fp', tus=['c04_alias.cc'] + TUS[1:], cases=[(0,), (1,)], expect=['Cartesian: the test is the plain polygon test of the point', 'spherical: the point itself is tested first',
        'spherical: inside iff the point or its longitude alias (+2pi if negative, else -2pi) is inside', 'end'], bounds='all doubles; polygon_contains_point_implementation replaced by a recording stub', native=False),
     ob('C04.polysafe', 'h_c04_polysafe', 'fpa', [(0,), (1,), (2,)], ['polygon test terminates without touching memory outside the list', 'end'], 'list length 0..3 (quick) / 0..4 (thorough), arbitrary doubles incl. NaN/inf',
        cases_thorough=[(0,), (1,), (2,), (3,), (4,)]),
     ob('C04.plume', 'h_c04_plume', 'real', tus=['c04_plume.cc'] + TUS[1:] + ['features/plume', 'features/feature_utilities'] + ['features/plume_models/%s/interface' % k for k in ('temperature', 'composition', 'grains', 'velocity')],
-       cases=[(1,), (2,)], cases_thorough=[(1,), (2,), (3,)], native=False,
+       cases=[(1,), (2,)], cases_thorough=[(1,), (2,), (3,)], native=True,
        expect=['above min depth the plume has no effect', 'ellipse centre is the linear interpolant of the bracketing cross sections (last row below, first row in the head)', 'head: semi-major axis is b*sqrt(1-(1-f)^2)',
                'semi-major axis is the linear interpolant', 'rotation angle is the shorter-arc interpolant modulo 2 pi', 'plume contains the point iff min <= depth <= max and the relative distance is <= 1 (half-ellipsoid in the head)',
                'inside, the temperature model gets the relative distance, the incoming value and the plume\'s depth range', 'outside, nothing changes', 'end'],
        bounds='cross-section tables of 1..2 rows (quick) / 3 rows (thorough); fraction_from_ellipse_center stubbed; schema domain of the parameters',
        stubs=['fraction_from_ellipse_center -> fresh non-negative value with recorded arguments', 'sqrt/sin/cos uninterpreted with contract axioms, floor exact']),
-    ob('C04.ellipse', 'h_c04_ellipse', 'real', tus=['c04_ellipse.cc'] + TUS[1:], cases=[()], expect=['relative distance from the ellipse centre is x\'^2/a^2 + y\'^2/b^2', 'end'], bounds='all finite parameters with 0<=e<1, a>0', native=False),
+    ob('C04.ellipse', 'h_c04_ellipse', 'real', tus=['c04_ellipse.cc'] + TUS[1:], cases=[()], expect=['relative distance from the ellipse centre is x\'^2/a^2 + y\'^2/b^2', 'end'], bounds='all finite parameters with 0<=e<1, a>0', native=True),
 ] + [dict(o, id=o['id'].replace('C02.frame', 'C04.guard')) for o in C02.OBLIGATIONS if o['id'].startswith('C02.frame')]
